@@ -106,6 +106,10 @@ def replay(ck, path):
         rp = json.load(f)
     case = rp["case"]
     core.build_harness()
+    if "cmd" in case:
+        o = core.impl([case["cmd"]], timeout=120)
+        print(o[0][:3000])
+        return 1
     script = []
     opened = set()
     for f, t in case["ops"]:
